@@ -14,10 +14,10 @@ JCCF = "yield,bwait,bpost,join+1,join+2,cancel+1,cancel+2,createY,createW,joinc,
 # param: initial semaphore count; for Condition 0 = Logic::kAll, 1 = Logic::kAny
 QUICK = [
     ("ch", CH, 3, 3, 1, 0, 4), ("mu", MU, 3, 3, 1, 0, 4), ("sem0", SEM, 3, 3, 1, 0, 4), ("sem1", SEM, 3, 3, 1, 1, 4), ("bc", BC, 3, 3, 1, 0, 4),
-    ("mu-len4", MU, 3, 4, 1, 0, 12, 8), ("ch-len4", CH, 3, 4, 0, 0, 2, 8), ("sem0-len4", SEM, 3, 4, 0, 0, 2, 8),
+    ("mu-len4", MU, 3, 4, 0, 0, 4, 8), ("ch-len4", CH, 3, 4, 0, 0, 2, 8), ("sem0-len4", SEM, 3, 4, 0, 0, 2, 8),
     ("ch-2acts", CH, 3, 2, 2, 0, 2), ("mu-2acts", MU, 3, 2, 2, 0, 2), ("sem-2acts", SEM, 3, 2, 2, 0, 2),
     ("condAll", COND, 3, 2, 2, 0, 4), ("condAny", COND, 3, 2, 2, 1, 4), ("condAll-2r", COND, 2, 3, 1, 0, 2), ("condAny-2r", COND, 2, 3, 1, 1, 2),
-    ("mix", MIX, 3, 2, 1, 0, 12), ("jcc3", JCC3, 3, 2, 1, 0, 12), ("jcc2", JCC2, 2, 2, 2, 0, 4),
+    ("mix", MIX, 3, 2, 0, 0, 2), ("mix-2r", MIX, 2, 2, 2, 0, 4), ("jcc3", JCC3, 3, 2, 1, 0, 12), ("jcc2", JCC2, 2, 2, 2, 0, 4),
 ]
 THOROUGH = [
     ("ch-len4", CH, 3, 4, 2, 0, 64), ("mu-len4", MU, 3, 4, 2, 0, 64), ("sem0-len4", SEM, 3, 4, 2, 0, 64),
@@ -49,7 +49,7 @@ def main(tier, args):
     plain = vf.build("C18/coro_plain", [H], srcs, mode="plain", plain_srcs=stub)
     asan = vf.build("C18/coro_asan", [H], srcs, mode="asan", plain_srcs=stub)
     cfgs = QUICK if tier == "quick" else THOROUGH
-    budget = float(os.environ.get("VERIF_DEADLINE_S", "75" if tier == "quick" else "1300"))
+    budget = float(os.environ.get("VERIF_DEADLINE_S", "85" if tier == "quick" else "1300"))
     env = {"C18_DEADLINE_AT": "%.0f" % (t0 + budget), "VERIF_DEADLINE_S": str(budget)}
     res = vf.Result(); log = open(vf.BUILD + "/C18/log.txt", "w")
     # verdict: plain build (reference model + invariants)
